@@ -137,13 +137,16 @@ class Replay:
         exc: Optional[BaseException] = None
         self._batch_objs: list = []
         try:
-            if op in ('append', 'extend', 'insert', 'setitem', 'setslice'):
+            if op in ('append', 'extend', 'insert', 'setitem', 'setslice', 'iadd'):
                 batch = self._make_batch(ev, kind)
                 self._batch_objs = batch
                 if op == 'append':
                     view.append(batch[0])
                 elif op == 'extend':
                     view.extend(batch)
+                elif op == 'iadd':
+                    if view.__iadd__(batch) is not view:
+                        raise RuntimeError('__iadd__ does not return the view')
                 elif op == 'insert':
                     view.insert(args['i'], batch[0])
                 elif op == 'setitem':
@@ -168,14 +171,28 @@ class Replay:
                             x = host.make(t, v, self.payload.get(sid))
                             break
                 getattr(view, op)(x)
-            elif op == 'mset':
+            elif op == 'reverse':
+                view.reverse()
+            elif op in ('mset', 'msetdefault', 'mupdate'):
                 k = host.value(host.views[vname][1][0], args['k'])
                 if kind == 'mapval':
-                    view[k] = host.payload_value(args['nv'])
+                    x = host.payload_value(args['nv'])
                 else:
-                    item = host.make(host.views[vname][1][0], args['k'], args['nv'])
-                    self._batch_objs = [item]
-                    view[k] = item
+                    x = host.make(host.views[vname][1][0], args['k'], args['nv'])
+                    self._batch_objs = [x]
+                if op == 'mset':
+                    view[k] = x
+                elif op == 'msetdefault':
+                    had = k in view
+                    cur = view[k] if had else None
+                    result = view.setdefault(k, x)
+                    if had and (result is not cur if kind == 'map' else result != cur):
+                        raise RuntimeError('setdefault on a present key does not return the current value')
+                    result = None
+                elif step % 2:
+                    view.update({k: x})
+                else:
+                    view.update([(k, x)])
             elif op == 'mdel':
                 del view[host.value(host.views[vname][1][0], args['k'])]
             elif op == 'mpop':
@@ -424,8 +441,33 @@ class Replay:
                 want_l = ref[sl]
                 if len(got_l) != len(want_l) or not all(same(a, b) for a, b in zip(got_l, want_l)):
                     self.add(step, 'pyread', f'{vname}[{sl}] disagrees with the list reference')
+            # inherited reads: iteration both ways, index / count of every element and of a stranger
+            if not all(same(a, b) for a, b in zip(list(iter(view)), ref)) or len(list(iter(view))) != n:
+                self.add(step, 'pyread', f'iter({vname}) disagrees with the list reference')
+            if not all(same(a, b) for a, b in zip(list(reversed(view)), ref[::-1])) or len(list(reversed(view))) != n:
+                self.add(step, 'pyread', f'reversed({vname}) disagrees with the list reference')
+            for x in ref[:3]:
+                if view.index(x) != ref.index(x) or view.count(x) != ref.count(x) or x not in view:
+                    self.add(step, 'pyread', f'{vname}.index/count/in of an element disagrees with the list reference')
             if kind in ('map', 'mapval'):
                 keys = [host.value(t, v) for t, v in trip]
+                sentinel = object()
+                for kv in (1, 2, 3):
+                    k = host.value('Meta', kv)
+                    first = next((j for j, kk in enumerate(keys) if kk == k), None)
+                    got = view.get(k, sentinel)
+                    if (got is sentinel) != (first is None):
+                        self.add(step, 'pyread', f'{vname}.get({k!r}) is wrong about presence')
+                    elif first is not None and (got is not ref[first] if kind == 'map' else got != ref[first].value):
+                        self.add(step, 'pyread', f'{vname}.get({k!r}) is not the first match')
+                if [a for a, b in view.items()] != keys or len([b for b in view.values()]) != n:
+                    self.add(step, 'pyread', f'{vname}.items()/values() disagree with keys()')
+                if kind == 'map' and not all(a is b for a, b in zip(view.values(), ref)):
+                    self.add(step, 'pyread', f'{vname}.values() are not the items')
+                if kind == 'mapval' and [b for b in view.values()] != [it.value for it in ref]:
+                    self.add(step, 'pyread', f'{vname}.values() are not the item values')
+                if list(reversed(view.keys())) != keys[::-1]:
+                    self.add(step, 'pyread', f'reversed({vname}.keys()) is wrong')
                 if list(view.keys()) != keys:
                     self.add(step, 'pyread', f'{vname}.keys() = {list(view.keys())}, expected {keys}')
                 if len(list(view.values())) != n or len(list(view.items())) != n:
@@ -484,7 +526,7 @@ class Replay:
                 if cur != snap['sib'][name]:
                     self.add(step, 'frame', f'sibling {name} changed: {snap["sib"][name]} -> {cur}')
         # surviving items keep their tokens (string-view assignments and `edit` change one item's text)
-        changed_ok = ev['op'] in ('edit', 'mset') or self.host.views.get(ev['view'], ('',))[0] == 'str'
+        changed_ok = ev['op'] in ('edit', 'mset', 'mupdate') or self.host.views.get(ev['view'], ('',))[0] == 'str'
         raw_rep = getattr(self.host.view(self.parent, self.raw_name), 'repeated', None)
         if raw_rep is not None:
             for it in raw_rep.items:
@@ -573,11 +615,13 @@ class Replay:
             snap = self.snapshot()
             exc, result = self.apply(step, ev)
             # mirror payload changes
-            if ev['op'] == 'mset' and not ev['exc']:
+            if ev['op'] in ('mset', 'mupdate', 'msetdefault') and not ev['exc']:
                 prev_view = self.beh[step - 1]['views'][ev['view']]
                 pv = {sid: v for sid, _, v in self.beh[step - 1]['raw']}
                 hit = next((sid for sid in prev_view if pv[sid] == ev['args']['k']), None)
-                if self.host.views[ev['view']][0] == 'mapval':
+                if ev['op'] == 'msetdefault' and hit is not None:
+                    tgt = None         # present key: nothing is written
+                elif self.host.views[ev['view']][0] == 'mapval':
                     tgt = hit if hit is not None else (ev['new'][0][0] if ev['new'] else None)
                 else:
                     tgt = ev['new'][0][0] if ev['new'] else None
